@@ -251,7 +251,66 @@ def check_extra(chk, tmp):
                           'spec: t1 [7, 8] throughout, t2 [100, 101]' % (op, msg or '', t1_rows, mid if not msg else '?', t2_rows),
                           {'kind': 'later-load', 'op': op})
     # (5) table names with characters that are special to %-formatting or quoting
-    for tname in (u'growth %', u'100%', u'a%%b', u'x%sy', u'we"ird', u'sp ace', u'%(n)s'):
+    # (4b) megabytes of data through a file-name handle, the source failing near the end: the old (multi-page) contents survive
+    for op in ('todb', 'appenddb'):
+        path = os.path.join(tmp, 'wide.db')
+        if os.path.exists(path):
+            os.remove(path)
+        c = sqlite3.connect(path)
+        c.execute('create table t (v integer, s text)')
+        old_rows = [(i, u'o%d' % i + u'x' * 1000) for i in range(300)]
+        c.executemany('insert into t values (?, ?)', old_rows)
+        c.commit()
+        c.close()
+        src = ProbeTable(['v', 's'], rows=[[i, u'n%d' % i + u'y' * 1000] for i in range(4000)], fail_at=3900)
+        try:
+            getattr(etl, op)(src, path, 't')
+            outcome = 'returned'
+        except InjectedFailure:
+            outcome = 'raised'
+        except Exception as e:
+            outcome = 'error %r' % (e,)
+        try:
+            got = fresh(path, 'select v, s from t order by rowid')
+            ok = got == old_rows
+            descr = '%d rows' % len(got)
+        except Exception as e:
+            ok, descr = False, 'unreadable: %r' % (e,)
+        chk.count(('wide-load', op))
+        chk.replayed += 1
+        if outcome != 'raised' or not ok:
+            chk.violation({'op': op, 'handle': 'filename', 'commit': True, 'kind': 'large-load'},
+                          '%s of 4000 rows of 1 kB through a file name, source failing at pull 3900: call %s, a fresh connection finds the table %s '
+                          '(spec: the 300 old rows unchanged)' % (op, outcome, 'unchanged' if ok else descr), {'kind': 'wide-load', 'op': op})
+    # (4c) todb(.., drop=True) without create=True: documented as having no effect
+    for fail in (0, 1, 2):
+        path = os.path.join(tmp, 'dropflag.db')
+        if os.path.exists(path):
+            os.remove(path)
+        c = sqlite3.connect(path)
+        c.execute('create table t (v integer)')
+        c.executemany('insert into t values (?)', [(7,), (8,)])
+        c.commit()
+        c.close()
+        try:
+            etl.todb(ProbeTable(['v'], rows=[[1], [2]], fail_at=(fail - 1) if fail else None), path, 't', drop=True)
+            outcome = 'returned'
+        except InjectedFailure:
+            outcome = 'raised'
+        except Exception as e:
+            outcome = 'error %r' % (e,)
+        try:
+            got = [r[0] for r in fresh(path, 'select v from t')]
+        except Exception as e:
+            got = 'unreadable: %r' % (e,)
+        want_out, want = ('raised', [7, 8]) if fail else ('returned', [1, 2])
+        chk.count(('drop-flag', fail))
+        chk.replayed += 1
+        if outcome != want_out or got != want:
+            chk.violation({'op': 'todb', 'handle': 'filename', 'commit': True, 'kind': 'drop-flag'},
+                          'todb(.., drop=True) (create left False), source failing at pull %d: call %s, table holds %r; spec %s, %r' % (fail, outcome, got, want_out, want),
+                          {'kind': 'drop-flag', 'fail': fail})
+    for tname in (u'growth %', u'100%', u'a%%b', u'x%sy', u'we"ird', u'sp ace', u'%(n)s', u'"t"', u'[t]', u"'t'"):
         for hname in ('filename', 'connection', 'cursor', 'mkcurs'):
             path = os.path.join(tmp, 'names.db')
             if os.path.exists(path):
@@ -259,7 +318,8 @@ def check_extra(chk, tmp):
             q = '"%s"' % tname.replace('"', '""')
             c = sqlite3.connect(path)
             c.execute('create table %s (a integer, b integer)' % q)
-            c.execute('create table %s (a integer, b integer)' % '"a%b"' if tname == u'a%%b' else 'create table "other" (a integer, b integer)')
+            neighbour = {u'a%%b': u'a%b', u'"t"': u't', u'[t]': u't', u"'t'": u't'}.get(tname, u'other')
+            c.execute('create table "%s" (a integer, b integer)' % neighbour)
             c.execute('insert into %s values (0, 0)' % q)
             c.commit()
             msg = None
@@ -271,7 +331,7 @@ def check_extra(chk, tmp):
                 msg = 'raised %r' % (e,)
             c.close()
             got = fresh(path, 'select a, b from %s' % q)
-            others = fresh(path, 'select count(*) from %s' % ('"a%b"' if tname == u'a%%b' else '"other"'))[0][0]
+            others = fresh(path, 'select count(*) from "%s"' % neighbour)[0][0]
             chk.count(('table-name', tname, hname))
             chk.replayed += 1
             if msg or got != [(1, 2), (3, 4)] or others:
